@@ -534,6 +534,48 @@ def judge(ctx, word, pname, probe, keys, label, kw, top_obs):
                       f'{label}: observation in context {word} differs from '
                       'top level', case, repr(top_obs)[:200], repr(obs)[:200])
         bad = True
+    # the same probe as the SECOND / THIRD script of an authorization: what
+    # the embedder supplied to run_auth_scripts (contracts, plugins, limits)
+    # governs every script of the list (it takes no flags argument)
+    if not bad and not kw.get('additional_flags') and \
+            'callstack_limit' not in kw:
+        functions = env.mods()[0]
+        first = (Rec.sig_ext, Rec.ct_plugin, Rec.invoke, Rec.transfer)
+        neutral = O('TRUE') + O('POP0')
+        for pos in (1, 2):
+            Rec.reset()
+            reset_hook()
+            env.Clock.now = env.NOW0
+            try:
+                functions.run_auth_scripts(
+                    [neutral] * pos + [script],
+                    {**FIELDS, **kw.get('cache_vals', {})},
+                    {CID: Invokable(), TID: Transfer()},
+                    {k: list(v) for k, v in kw.get('plugins', {}).items()},
+                    977, 1009, LIMIT)
+            except BaseException:
+                pass
+            ctx.evaluated()
+            now = (Rec.sig_ext, Rec.ct_plugin, Rec.invoke, Rec.transfer)
+            if now != first:
+                ctx.violation('not-uniform-in-later-auth-script',
+                              f'probe {pname} under {label} in context '
+                              f'{word or "top"} placed in script #{pos} of '
+                              'run_auth_scripts: plugin / contract calls '
+                              '(sig_ext, ct_plugin, invoke, transfer) differ '
+                              'from the run_script run', dict(case, auth_pos=pos),
+                              first, now)
+                bad = True
+                break
+            if Hook.problems:
+                k, d = Hook.problems[0]
+                ctx.violation(k, 'configuration seen by a dispatched '
+                              f'instruction of script #{pos} of '
+                              f'run_auth_scripts differs: {d} (probe {pname}, '
+                              f'{label}, context {word or "top"})',
+                              dict(case, auth_pos=pos))
+                bad = True
+                break
     if word and not bad:
         ctx.mark_nontrivial(hashlib.blake2b(
             repr((word, pname, label)).encode(), digest_size=8).digest())
